@@ -313,8 +313,31 @@ func (sl *StringLiteral) WriteTo(cw *CodeWriter) {
 	cw.AddMapping(sl.Token.Start)
 	// TODO: keep the original string token (' or ")
 	cw.WriteRune('"')
-	cw.WriteString(sl.Value)
+	cw.WriteString(escapeDoubleQuotes(sl.Value))
 	cw.WriteRune('"')
+}
+
+// escapeDoubleQuotes escapes the double quotes of a string body that are not
+// escaped yet (a single-quoted source string may contain them bare).
+func escapeDoubleQuotes(s string) string {
+	if !strings.Contains(s, `"`) {
+		return s
+	}
+	var b strings.Builder
+	for i := 0; i < len(s); i++ {
+		c := s[i]
+		if c == '\\' && i+1 < len(s) {
+			b.WriteByte(c)
+			i++
+			b.WriteByte(s[i])
+			continue
+		}
+		if c == '"' {
+			b.WriteByte('\\')
+		}
+		b.WriteByte(c)
+	}
+	return b.String()
 }
 
 func (sl *StringLiteral) Precedence() int {
